@@ -68,6 +68,7 @@ Definition addr_ok (purpose : Z) (net : bool) (secc : bytes) (a : option str) : 
        | None => false end.
 
 Definition H := 2147483648.
+Definition is_some {T} (x : option T) : bool := match x with Some _ => true | None => false end.
 
 Definition row_ok (purpose : Z) (net : bool) (x0 : xprv) (acct_path : list Z) (i : Z) (r : tree) : bool :=
   match r with
@@ -315,7 +316,17 @@ Definition check_case (c : case) : Z :=
       let prop :=
         if existsb (fun i => H <=? i) sub then negb (is_ok ob)          (* hardened from public data: refused *)
         else match full, ob with
-             | Ok f, Ok t => beq_tree f t
+             | Ok f, Ok t =>
+                 beq_tree f t
+                 (* the addresses carry the tags of the network named by the key's version prefix *)
+                 && (let net := ws_testnet ws in
+                     match tget (k "addrs") t with
+                     | Ok (TList [TStr a1; TStr a2; TStr a3; TStr a4; TStr a5]) =>
+                         (match b58dec o (Some a1) with Ok (v :: _) => v =? (if net then 111 else 0) | _ => false end)
+                         && (match b58dec o (Some a3) with Ok (v :: _) => v =? (if net then 196 else 5) | _ => false end)
+                         && (match b58dec o (Some a5) with Ok (v :: _) => v =? (if net then 196 else 5) | _ => false end)
+                         && is_some (Bech32M.decode (segwit_hrp net) a2) && is_some (Bech32M.decode (segwit_hrp net) a4)
+                     | _ => false end)
              | Err, _ => true
              | Ok _, Err => false
              end in
